@@ -26,7 +26,7 @@ def budget(tier):
 
 @st.composite
 def _case(draw):
-    c = draw(zoo.transform_case({"regimes": ["fresh", "zero", "zero", "equal", "small", "moderate", "nonuniform", "nonuniform"]}))
+    c = draw(zoo.transform_case({"regimes": ["fresh", "zero", "zero", "equal", "small", "moderate", "nonuniform", "nonuniform", "flatbin", "flatbin"]}))
     c["inp"] = {"n": draw(st.integers(2, 3)), "seed": draw(st.integers(0, 10 ** 6)), "special": draw(st.sampled_from([0.0, 0.4, 0.4, 1.0])),
                 "scale": draw(st.sampled_from([1.0, 1.0, 3.0, 0.3])), "ulp": draw(st.sampled_from([0, 0, 1, 2]))}
     c["mode"] = draw(st.sampled_from(["eval", "eval", "eval", "train"]))
